@@ -54,7 +54,8 @@ impl FastDivision {
         }
         
         let shift = (32 - divisor.leading_zeros()) as u8;
-        let multiplier = ((1u64 << (32 + shift)) + divisor as u64 - 1) / divisor as u64;
+        // 128-bit intermediate: for divisors >= 2^31 the shift is 32 and 1 << 64 does not fit u64
+        let multiplier = (((1u128 << (32 + shift as u32)) + divisor as u128 - 1) / divisor as u128) as u64;
         
         Self { divisor, multiplier, shift }
     }
@@ -64,6 +65,10 @@ impl FastDivision {
     pub fn divide(&self, dividend: u32) -> u32 {
         if self.divisor <= 1 {
             return dividend;
+        }
+        if self.shift >= 32 {
+            // divisor >= 2^31: the 64-bit reciprocal product would need a shift by 64
+            return dividend / self.divisor;
         }
         ((dividend as u64 * self.multiplier) >> (32 + self.shift)) as u32
     }
@@ -402,7 +407,10 @@ impl FseTable {
         // Use fixed TF_SHIFT constant for optimal performance, regardless of table_log
         const TF_SHIFT: u8 = 12;
         let table_size = 1usize << TF_SHIFT;  // Always use TF_SHIFT for table size
-        let total_freq: u32 = frequencies.iter().sum();
+        // The table may come from an untrusted header: sum without overflow
+        let total_freq = frequencies.iter().map(|&f| f as u64).sum::<u64>();
+        let total_freq = u32::try_from(total_freq)
+            .map_err(|_| ZiporaError::invalid_data("Total frequency exceeds u32::MAX"))?;
         
         if total_freq == 0 {
             return Err(ZiporaError::invalid_data("Total frequency is zero"));
